@@ -112,6 +112,7 @@ def run(ctx):
     for t in ("query.resp-explicit", "query.resp-result", "query.resp-stdresult"):
         if ctx.tags.get(t, 0) == 0:
             ctx.violation("TAG", [t], "corpus", f"a corpus program exercising {t}", "none", "corpus adequacy (DESIGN-appendix A 7)")
+    C.corpus_adequacy(ctx, enforce=False)
     ctx.floor("C16.pairs", 60)
     ctx.floor("C16.union", 40)
     return check.finish(
